@@ -20,6 +20,11 @@ let show_res f = function
   | M.Fault -> "FAULT:access-outside-slice"
   | M.OutOfFuel -> "OUT-OF-FUEL"
 
+let show_strs = function
+  | M.Nil -> "nil"
+  | M.Strs [] -> "empty"
+  | M.Strs l -> String.concat "," (List.map hexz l)
+
 let eval inp =
   match words inp with
   | ["Z"; off; n; mem] ->
@@ -36,6 +41,9 @@ let eval inp =
     (match List.find_opt (function M.Ok _ -> false | _ -> true) outs with
      | Some bad -> show_res string_of_z bad
      | None -> String.concat " " (List.map (show_res string_of_z) outs))
+  (* supplementary, outside C20: Lines and Split (correspondence only; [spec] says nothing) *)
+  | ["N"; s] -> show_res show_strs (M.lines (zbytes s))
+  | ["P"; s; sep] -> show_res show_strs (M.split (zbytes s) (zbytes sep))
   | _ -> "?"
 
 (* ---- the property on the implementation's outputs *)
